@@ -227,12 +227,18 @@ func (c *localCache) ReadCh(ctx context.Context, name string, opts *Opts, paths 
 				if e == nil {
 					continue //
 				}
-				outCh <- &Update{
+				// the reader of outCh may have left already (client gone, stream broken):
+				// do not wait for it forever
+				select {
+				case <-ctx.Done():
+					return
+				case outCh <- &Update{
 					path:     e.P,
 					value:    e.V,
 					priority: e.Priority,
 					owner:    e.Owner,
 					ts:       int64(e.Timestamp),
+				}:
 				}
 			}
 		}
